@@ -13,7 +13,7 @@ from ..seeds import H
 from ..simfs import SimCrash, SimBudgetExceeded, ROOT
 from . import geo_build
 
-LOW = ('ADD_NODE', 'DEL_NODE', 'ADD_COL', 'ADD_COL_DUP', 'DEL_COL', 'DEL_CON', 'ADD_CON', 'ADD_LAYER',
+LOW = ('ADD_NODE', 'DEL_NODE', 'ADD_COL', 'ADD_COL_DUP', 'RENAME_COL_BAD', 'DEL_COL', 'DEL_CON', 'ADD_CON', 'ADD_LAYER',
        'DEL_LAYER', 'RENAME_LAYER', 'ADD_WELL', 'DEL_WELL', 'REFRESH')
 XHIGH = ('XREFINE', 'XSPLIT', 'XDECOMP', 'XREDUCE', 'XREFLAY', 'XSETSURF', 'XRENCOL')
 HIGH = XHIGH + ('RENAME_COL', 'SPLIT', 'REFINE', 'REFINE_LAYERS', 'DECOMPOSE', 'REDUCE', 'CHECK_FIX',
@@ -26,7 +26,7 @@ REFRESHING = XHIGH + ('XINIT', 'INIT', 'REFRESH', 'RENAME_LAYER', 'RENAME_COL', 
               'FIT_SURFACE', 'SET_OPTION', 'PERSIST')
 # ops that change no name, column, connection, layer or surface (lists stay as fresh as they were)
 NEUTRAL = ('TRANSLATE', 'ROTATE', 'ADD_WELL', 'DEL_WELL', 'ADD_NODE', 'DEL_NODE', 'DEL_ORPHANS',
-           'EDIT_OTHER', 'ADD_COL_DUP')
+           'EDIT_OTHER', 'ADD_COL_DUP', 'RENAME_COL_BAD')
 
 
 def my_fix(name):
@@ -900,6 +900,47 @@ class GeoMachine(Machine):
             raise Violation('EXC.rename_column', 'rename_column refused a valid one-to-one map')
         self.ctx.probes['rename_col_' + tag] += 1
         return tag
+
+    def op_RENAME_COL_BAD(self, ch):
+        """A list rename in which one old name does not exist is refused (False or KeyError) and
+        must leave every name, lookup key and derived list as it was."""
+        geo = self.geo
+        n = len(geo.columnlist)
+        rng = random.Random(H('rencolbad', ch[2]))
+        k = min(n, 1 + ch[1] % 3)
+        old = [c.name for c in rng.sample(geo.columnlist, k)]
+        new = self.free_col_names(k + 2, ch[3])
+        if len(new) < k + 2:
+            return False
+        ghost = new.pop()                      # a name no column has
+        old.insert(1 + ch[0] % len(old), ghost)       # never first: some renames come before it
+        before = (tuple(c.name for c in geo.columnlist), tuple(sorted(geo.column)),
+                  tuple(sorted(geo.connection)),
+                  tuple((c.column[0].name, c.column[1].name) for c in geo.connectionlist),
+                  tuple(geo.block_name_list), tuple(geo.block_connection_name_list))
+        try:
+            ok = geo.rename_column(old, new[:len(old)])
+        except KeyError:
+            ok = False
+        except (SimCrash, SimBudgetExceeded):
+            raise
+        except Exception as e:
+            raise Violation('EXC.rename_column', 'rename_column with an unknown old name raised %s'
+                            % _short_tb(e))
+        if ok is not False:
+            raise Violation('J1.refused', 'rename_column(%r, ...) accepted a column name that '
+                            'does not exist' % (old,))
+        after = (tuple(c.name for c in geo.columnlist), tuple(sorted(geo.column)),
+                 tuple(sorted(geo.connection)),
+                 tuple((c.column[0].name, c.column[1].name) for c in geo.connectionlist),
+                 tuple(geo.block_name_list), tuple(geo.block_connection_name_list))
+        for what, a, b in zip(('column names', 'column lookup keys', 'connection lookup keys',
+                               'connection list', 'block name list', 'connection name list'),
+                              before, after):
+            if a != b:
+                raise Violation('J1.refused', 'a refused rename_column(%r, ...) changed the %s'
+                                % (old, what))
+        self.ctx.probes['rename_col_refused'] += 1
 
     def op_SPLIT(self, ch):
         geo = self.geo
